@@ -87,24 +87,29 @@ impl ActionKey {
     #[verifier::external_body]
     pub fn clone(&self) -> (r: Self) ensures r.id() == self.id() { unimplemented!() }
 }
+// which async sender function an action's future is built from (R8 keeps this marker)
+pub enum Via { SendKeyedEvent, ProcessEvent, Inline, Other }
 impl Action {
     pub uninterp spec fn key_id(&self) -> Option<int>;   // Some(id) for keyed actions
+    // the event is delivered through `send_keyed_event`, whose handler closure re-checks the key when the
+    // model starts processing the message (ASSUMED from its 4-line body: `if !event_key.is_cancelled() { call }`)
+    pub uninterp spec fn model_rechecks_key(&self) -> bool;
 }
 #[verifier::external_body]
-fn mk_OnceAction<F, T, A>(func: F, arg: T, address: A) -> (a: Action)
-    ensures a.period() is None, a.key_id() is None
+fn mk_OnceAction<F, T, A>(func: F, arg: T, address: A, via: Via) -> (a: Action)
+    ensures a.period() is None, a.key_id() is None, a.model_rechecks_key() == (via is SendKeyedEvent),
 { unimplemented!() }
 #[verifier::external_body]
-fn mk_KeyedOnceAction<F, T, A>(func: F, arg: T, address: A, key: ActionKey) -> (a: Action)
-    ensures a.period() is None, a.key_id() == Some(key.id())
+fn mk_KeyedOnceAction<F, T, A>(func: F, arg: T, address: A, key: ActionKey, via: Via) -> (a: Action)
+    ensures a.period() is None, a.key_id() == Some(key.id()), a.model_rechecks_key() == (via is SendKeyedEvent),
 { unimplemented!() }
 #[verifier::external_body]
-fn mk_PeriodicAction<F, T, A>(func: F, arg: T, address: A, period: Duration) -> (a: Action)
-    ensures a.period() == Some(dur_ns(period)), a.key_id() is None
+fn mk_PeriodicAction<F, T, A>(func: F, arg: T, address: A, period: Duration, via: Via) -> (a: Action)
+    ensures a.period() == Some(dur_ns(period)), a.key_id() is None, a.model_rechecks_key() == (via is SendKeyedEvent),
 { unimplemented!() }
 #[verifier::external_body]
-fn mk_KeyedPeriodicAction<F, T, A>(func: F, arg: T, address: A, period: Duration, key: ActionKey) -> (a: Action)
-    ensures a.period() == Some(dur_ns(period)), a.key_id() == Some(key.id())
+fn mk_KeyedPeriodicAction<F, T, A>(func: F, arg: T, address: A, period: Duration, key: ActionKey, via: Via) -> (a: Action)
+    ensures a.period() == Some(dur_ns(period)), a.key_id() == Some(key.id()), a.model_rechecks_key() == (via is SendKeyedEvent),
 { unimplemented!() }
 
 //@item src=nexosim/src/simulation/scheduler.rs kind=enum name=SchedulingError
@@ -257,7 +262,7 @@ impl GlobalScheduler {
             no_zero_period(final(self).scheduler_queue.view()),                                                   //@ C08 #no-zero-period
         //@]
     {
-        let action = mk_OnceAction(func, arg, address);
+        let action = mk_OnceAction(func, arg, address, Via::ProcessEvent);
 
         // The scheduler queue must always be locked when reading the time (see
         // `schedule_from`).
@@ -305,7 +310,7 @@ impl GlobalScheduler {
             // an accepted request queues exactly one entry keyed (deadline, origin) carrying the requested period and observing the returned key
             res is Ok ==> exists|a: Action| #![trigger a.period()] accepted(old(self).scheduler_queue.view(), final(self).scheduler_queue.view(), entry_of((deadline.into_time_spec(MonotonicTime { t: old(self).time.val() }), origin_id), a)),   //@ C08,C01,C07 #queues-exactly-the-request
             res is Ok ==> exists|a: Action| #![trigger a.period()] a.period() == None::<nat> && accepted(old(self).scheduler_queue.view(), final(self).scheduler_queue.view(), entry_of((deadline.into_time_spec(MonotonicTime { t: old(self).time.val() }), origin_id), a)),   //@ C10 #queued-with-the-requested-period
-            res matches Ok(k) ==> exists|a: Action| #![trigger a.period()] a.key_id() == Some(k.id()) && accepted(old(self).scheduler_queue.view(), final(self).scheduler_queue.view(), entry_of((deadline.into_time_spec(MonotonicTime { t: old(self).time.val() }), origin_id), a)),   //@ C09 #returned-key-cancels-the-queued-action
+            res matches Ok(k) ==> exists|a: Action| #![trigger a.period()] a.key_id() == Some(k.id()) && a.model_rechecks_key() && accepted(old(self).scheduler_queue.view(), final(self).scheduler_queue.view(), entry_of((deadline.into_time_spec(MonotonicTime { t: old(self).time.val() }), origin_id), a)),   //@ C09 #returned-key-cancels-the-queued-action-up-to-the-model
             (deadline.into_time_spec(MonotonicTime { t: old(self).time.val() }).t > old(self).time.val()) ==> res is Ok,   //@ C08 #valid-request-accepted
             sorted(final(self).scheduler_queue.view()),
             all_later(final(self).scheduler_queue.view(), final(self).time.val()),                                //@ C01 #pending-strictly-later
@@ -313,7 +318,7 @@ impl GlobalScheduler {
         //@]
     {
         let event_key = ActionKey::new();
-        let action = mk_KeyedOnceAction(func, arg, address, event_key.clone());
+        let action = mk_KeyedOnceAction(func, arg, address, event_key.clone(), Via::SendKeyedEvent);
 
         // The scheduler queue must always be locked when reading the time (see
         // `schedule_from`).
@@ -374,7 +379,7 @@ impl GlobalScheduler {
         if period.is_zero() {
             return Err(SchedulingError::NullRepetitionPeriod);
         }
-        let action = mk_PeriodicAction(func, arg, address, period);
+        let action = mk_PeriodicAction(func, arg, address, period, Via::ProcessEvent);
 
         // The scheduler queue must always be locked when reading the time (see
         // `schedule_from`).
@@ -425,7 +430,7 @@ impl GlobalScheduler {
             // an accepted request queues exactly one entry keyed (deadline, origin) carrying the requested period and observing the returned key
             res is Ok ==> exists|a: Action| #![trigger a.period()] accepted(old(self).scheduler_queue.view(), final(self).scheduler_queue.view(), entry_of((deadline.into_time_spec(MonotonicTime { t: old(self).time.val() }), origin_id), a)),   //@ C08,C01,C07 #queues-exactly-the-request
             res is Ok ==> exists|a: Action| #![trigger a.period()] a.period() == Some(dur_ns(period)) && accepted(old(self).scheduler_queue.view(), final(self).scheduler_queue.view(), entry_of((deadline.into_time_spec(MonotonicTime { t: old(self).time.val() }), origin_id), a)),   //@ C10 #queued-with-the-requested-period
-            res matches Ok(k) ==> exists|a: Action| #![trigger a.period()] a.key_id() == Some(k.id()) && accepted(old(self).scheduler_queue.view(), final(self).scheduler_queue.view(), entry_of((deadline.into_time_spec(MonotonicTime { t: old(self).time.val() }), origin_id), a)),   //@ C09 #returned-key-cancels-the-queued-action
+            res matches Ok(k) ==> exists|a: Action| #![trigger a.period()] a.key_id() == Some(k.id()) && a.model_rechecks_key() && accepted(old(self).scheduler_queue.view(), final(self).scheduler_queue.view(), entry_of((deadline.into_time_spec(MonotonicTime { t: old(self).time.val() }), origin_id), a)),   //@ C09 #returned-key-cancels-the-queued-action-up-to-the-model
             (deadline.into_time_spec(MonotonicTime { t: old(self).time.val() }).t > old(self).time.val() && dur_ns(period) != 0) ==> res is Ok,   //@ C08 #valid-request-accepted
             sorted(final(self).scheduler_queue.view()),
             all_later(final(self).scheduler_queue.view(), final(self).time.val()),                                //@ C01 #pending-strictly-later
@@ -436,7 +441,7 @@ impl GlobalScheduler {
             return Err(SchedulingError::NullRepetitionPeriod);
         }
         let event_key = ActionKey::new();
-        let action = mk_KeyedPeriodicAction(func, arg, address, period, event_key.clone());
+        let action = mk_KeyedPeriodicAction(func, arg, address, period, event_key.clone(), Via::SendKeyedEvent);
 
         // The scheduler queue must always be locked when reading the time (see
         // `schedule_from`).
@@ -820,13 +825,13 @@ impl<M: Model> Context<M> {
 
 // ---------- event sources: the actions they build carry exactly the caller's period and the returned key ----------
 #[verifier::external_body]
-fn mk_OnceAction0() -> (a: Action) ensures a.period() is None, a.key_id() is None { unimplemented!() }
+fn mk_OnceAction0(via: Via) -> (a: Action) ensures a.period() is None, a.key_id() is None { unimplemented!() }
 #[verifier::external_body]
-fn mk_KeyedOnceAction0(key: ActionKey) -> (a: Action) ensures a.period() is None, a.key_id() == Some(key.id()) { unimplemented!() }
+fn mk_KeyedOnceAction0(key: ActionKey, via: Via) -> (a: Action) ensures a.period() is None, a.key_id() == Some(key.id()) { unimplemented!() }
 #[verifier::external_body]
-fn mk_PeriodicAction0(period: Duration) -> (a: Action) ensures a.period() == Some(dur_ns(period)), a.key_id() is None { unimplemented!() }
+fn mk_PeriodicAction0(period: Duration, via: Via) -> (a: Action) ensures a.period() == Some(dur_ns(period)), a.key_id() is None { unimplemented!() }
 #[verifier::external_body]
-fn mk_KeyedPeriodicAction0(period: Duration, key: ActionKey) -> (a: Action) ensures a.period() == Some(dur_ns(period)), a.key_id() == Some(key.id()) { unimplemented!() }
+fn mk_KeyedPeriodicAction0(period: Duration, key: ActionKey, via: Via) -> (a: Action) ensures a.period() == Some(dur_ns(period)), a.key_id() == Some(key.id()) { unimplemented!() }
 
 #[verifier::reject_recursive_types(T)]
 //@item src=nexosim/src/ports/source.rs kind=struct name=EventSource rules=PUBSRC
@@ -846,7 +851,7 @@ impl<T: Clone + Send + 'static> EventSource<T> {
         let fut = ();
         let fut = ();
 
-        mk_OnceAction0()
+        mk_OnceAction0(Via::Inline)
     }
 //@end
 
@@ -860,7 +865,7 @@ impl<T: Clone + Send + 'static> EventSource<T> {
         let action_key = ActionKey::new();
         let fut = ();
 
-        let action = mk_KeyedOnceAction0(action_key.clone());
+        let action = mk_KeyedOnceAction0(action_key.clone(), Via::Inline);
 
         (action, action_key)
     }
@@ -875,7 +880,7 @@ impl<T: Clone + Send + 'static> EventSource<T> {
     {
         let broadcaster = ();
 
-        mk_PeriodicAction0(period)
+        mk_PeriodicAction0(period, Via::Inline)
     }
 //@end
 
@@ -890,7 +895,7 @@ impl<T: Clone + Send + 'static> EventSource<T> {
         let action_key = ActionKey::new();
         let broadcaster = ();
 
-        let action = mk_KeyedPeriodicAction0(period, action_key.clone());
+        let action = mk_KeyedPeriodicAction0(period, action_key.clone(), Via::Inline);
 
         (action, action_key)
     }
